@@ -62,5 +62,10 @@ TreeOK(r) ==
 \* r.fmt = "file": r.content tokens of the node, r.out tokens of the bytes written
 FileOK(r) == r.err = "" /\ r.out = r.content
 
-RecOK(r) == IF r.fmt = "file" THEN FileOK(r) ELSE TreeOK(r)
+\* "dumping ... yields / writes": the dump completes.  r.noterm = TRUE when the
+\* dump call did not return (every goroutine of the dump blocked for good, or
+\* no return within the driver's real-time watchdog).
+Terminates(r) == ~r.noterm
+
+RecOK(r) == Terminates(r) /\ (IF r.fmt = "file" THEN FileOK(r) ELSE TreeOK(r))
 =============================================================================
